@@ -220,6 +220,24 @@ type world struct {
 
 func (w *world) close() { w.u.Close() }
 
+// owns reports whether a name logged at one of the scripted servers can have
+// been asked by THIS case's resolver: the root, the root's name servers, or
+// anything below the case's own TLD (every generated name lives there).
+func (w *world) owns(qnameLower string) bool {
+	if qnameLower == "." || qnameLower == "" {
+		return true
+	}
+	if dns.IsSubDomain(w.tld.Apex(), qnameLower) {
+		return true
+	}
+	for _, h := range w.u.NSHosts(".") {
+		if strings.EqualFold(h.Name, qnameLower) {
+			return true
+		}
+	}
+	return false
+}
+
 func (w *world) zspec(apex string) zm.Spec {
 	s := zm.Spec{Apex: apex, Signed: w.spec.Signed}
 	if w.spec.Signed && w.spec.NSEC3 {
